@@ -26,6 +26,8 @@ def lessOf : Int → Option (Int → Int → Bool)
   | 0 => some (fun a b => decide (a < b))
   | 1 => some (fun a b => decide (a > b))
   | 2 => some (fun a b => decide (Int.tdiv a 2 < Int.tdiv b 2))
+  | 3 => some (fun a b => decide (a < b))   -- NewSortedOrdered over ints
+  | 4 => some (fun a b => decide (a < b))   -- NewSortedOrdered over fixed-width decimal strings (glue in the harness)
   | _ => none
 
 structure St where
@@ -36,7 +38,7 @@ structure St where
 
 abbrev State := Option St
 
-def total (id : Int) : Bool := id == 0 || id == 1
+def total (id : Int) : Bool := id == 0 || id == 1 || id == 3 || id == 4
 
 /-- for a non-total `less` the specification state just follows the model (so that `get/removeat/len`, which the
 property promises for every `less`, are still judged against `Spec` functions on the same content) -/
